@@ -1317,6 +1317,59 @@ impl Azks {
 
 type AppendOnlyHelper = (Vec<AzksElement>, Vec<AzksElement>);
 
+/// Verification hooks (compiled only with `--cfg akd_verif`): expose the
+/// crate-private [AzksElementSet] operations to an external harness.
+#[cfg(akd_verif)]
+#[allow(missing_docs)]
+pub mod verif_hooks {
+    use super::*;
+
+    fn build(nodes: Vec<AzksElement>, force_unsorted: bool) -> AzksElementSet {
+        if force_unsorted {
+            AzksElementSet::Unsorted(nodes)
+        } else {
+            AzksElementSet::from(nodes)
+        }
+    }
+
+    fn is_bs(set: &AzksElementSet) -> bool {
+        matches!(set, AzksElementSet::BinarySearchable(_))
+    }
+
+    pub fn set_from(nodes: Vec<AzksElement>, force_unsorted: bool) -> (bool, Vec<AzksElement>) {
+        let set = build(nodes, force_unsorted);
+        (is_bs(&set), set.to_vec())
+    }
+
+    pub fn partition(
+        nodes: Vec<AzksElement>,
+        force_unsorted: bool,
+        prefix: NodeLabel,
+    ) -> (bool, Vec<AzksElement>, Vec<AzksElement>) {
+        let set = build(nodes, force_unsorted);
+        let bs = is_bs(&set);
+        let (l, r) = set.partition(prefix);
+        (bs, l.to_vec(), r.to_vec())
+    }
+
+    pub fn longest_common_prefix<TC: Configuration>(
+        nodes: Vec<AzksElement>,
+        force_unsorted: bool,
+    ) -> (bool, NodeLabel) {
+        let set = build(nodes, force_unsorted);
+        (is_bs(&set), set.get_longest_common_prefix::<TC>())
+    }
+
+    pub fn contains_prefix(
+        nodes: Vec<AzksElement>,
+        force_unsorted: bool,
+        prefix: NodeLabel,
+    ) -> (bool, bool) {
+        let set = build(nodes, force_unsorted);
+        (is_bs(&set), set.contains_prefix(&prefix))
+    }
+}
+
 #[cfg(test)]
 mod tests {
     use super::*;
